@@ -1,12 +1,14 @@
 //! One monitor per property.
 use crate::rt::Lane;
 pub mod c01;
+pub mod c02;
 
-pub const PROPS: [&str; 1] = ["C01"];
+pub const PROPS: [&str; 2] = ["C01", "C02"];
 
 pub fn lanes(prop: &str) -> Vec<Lane> {
     match prop {
         "C01" => c01::lanes(),
+        "C02" => c02::lanes(),
         _ => vec![],
     }
 }
